@@ -26,7 +26,7 @@ RULE = ("2 of 3 runs: clock sweep - one bundled tariff x one of the 14 calendar-
 PROBES = ["lookups", "near_breakpoint", "season_edge_crossed", "weekday_class_midnight", "year_wrap_crossed", "leap_day",
           "world_runs", "get_prices_start0_later", "get_prices_explicit_start", "demand_charge_query", "energy_cost_checked",
           "winter_pge", "aware_two_zone_lookup", "explicit_tariff_cost_checked", "price_vector_scribbled", "vector_longer_than_a_year", "host_tz_non_utc", "breakpoint_minute_sweep", "concurrent_callers", "thread_switches",
-          "coarse_vector_daily_or_longer", "coarse_vector_monthly_or_longer", "direct_vector_scribbled_and_asked_again"]
+          "coarse_vector_daily_or_longer", "coarse_vector_monthly_or_longer", "direct_vector_scribbled_and_asked_again", "pandas_timestamp_lookup"]
 FAULT_DIMENSION = "environment: host time zone (with DST nights), a working directory holding same-named tariff files with other rates; the simulated clock is swept across the calendar"
 REAL_VS_STUB = "real: TimeOfUseTariff + bundled JSON files, Interface.get_prices/get_demand_charge, analysis.energy_cost/demand_charge, Simulator; reference reads the JSON files itself"
 ASSUMPTIONS = ["prices compared exactly (they are copied from the file, never computed)", "costs within 1e-9 relative"]
@@ -290,6 +290,52 @@ def check(sc):
                     break
             if out.viol:
                 break
+    # instants handed over as pandas Timestamps (a datetime subclass; what DataFrame indices and date_range yield), aware, on and around
+    # the days on which their zone changes its offset: priced by the wall-clock date and time of day the Timestamp shows
+    rpt = sub(sc["seed"], "pd_timestamp")
+    if not out.viol and rpt.random() < 0.3:
+        import pandas as pd
+        zn = rpt.choice(["America/Los_Angeles", "Europe/London", "Australia/Sydney", "UTC"])
+        days_ = {"America/Los_Angeles": [(3, 10), (11, 3)], "Europe/London": [(3, 31), (10, 27)], "Australia/Sydney": [(4, 7), (10, 6)], "UTC": [(6, 1)]}[zn]
+        mo_, dd_ = rpt.choice(days_)
+        t0_ = pd.Timestamp(year=2019, month=mo_, day=dd_, hour=0, minute=rpt.choice([0, 15, 30]), tz=zn)
+        step_ = rpt.choice([15, 30, 60])
+        pts_ = [t0_ + k_ * pd.Timedelta(minutes=step_) for k_ in range(0, int(26 * 60 / step_), rpt.choice([1, 2, 3]))]
+        for p_ in pts_:
+            e, err = expect(out, doc, p_.to_pydatetime().replace(tzinfo=None), sc["tariff"])
+            if err:
+                continue
+            try:
+                g = T.get_tariff(p_)
+            except Exception as x:
+                from ..driver import classify_exception
+                if classify_exception(x) == "harness":
+                    raise
+                out.add("C17/lookup_raises", "%s at pandas Timestamp %s: %s: %s" % (sc["tariff"], p_.isoformat(), type(x).__name__, str(x)[:100]))
+                break
+            out.probe("pandas_timestamp_lookup")
+            if g != e[0]:
+                out.add("C17/price_aware_datetime", "%s at pandas.Timestamp %s: returned %r, file says %r for that date / time of day" % (sc["tariff"], p_.isoformat(), g, e[0]))
+                break
+        if not out.viol:
+            n_ = min(len(pts_), 20)
+            try:
+                vec_ = T.get_tariffs(t0_, n_, step_)
+            except Exception as x:
+                from ..driver import classify_exception
+                if classify_exception(x) == "harness":
+                    raise
+                vec_ = None
+                out.add("C17/lookup_raises", "%s: get_tariffs(pandas Timestamp %s, %d, %d): %s: %s" % (sc["tariff"], t0_.isoformat(), n_, step_, type(x).__name__, str(x)[:100]))
+            for k_ in range(n_ if vec_ is not None else 0):
+                dk_ = t0_ + k_ * dt.timedelta(minutes=step_)          # (the instants the documented start + k x period denotes for this type)
+                e, err = expect(out, doc, dk_.to_pydatetime().replace(tzinfo=None), sc["tariff"])
+                if err:
+                    continue
+                if vec_[k_] != e[0]:
+                    out.add("C17/price", "%s: get_tariffs(pandas.Timestamp %s, %d, %d)[%d] is %r; start + %d x period is %s, where the file says %r"
+                            % (sc["tariff"], t0_.isoformat(), n_, step_, k_, vec_[k_], k_, dk_.isoformat(), e[0]))
+                    break
     # caller threads: one tariff object shared by several request handlers; the seed decides the interleaving of their steps inside the
     # library (dsim/threads.py); each must get the prices it gets when it asks alone
     rt = sub(sc["seed"], "threads")
